@@ -444,8 +444,13 @@ func loadIpMarkerFromFile(fp string) (*ipMarker, error) {
 }
 
 func cacheKey(q *dnsmsg.Question, mark string) pool.Buffer {
-	b := pool.GetBuf(len(q.Name) + 4 + len(mark))
+	b := pool.GetBuf(len(q.Name) + 1 + 4 + len(mark))
 	off := copy(b, q.Name)
+	// Terminate the name with its root label. Without it the key is not
+	// self-delimiting: name octets, class/type and mark could be shifted
+	// into each other and two different queries would share a key.
+	b[off] = 0
+	off++
 	binary.BigEndian.PutUint16(b[off:], uint16(q.Class))
 	off += 2
 	binary.BigEndian.PutUint16(b[off:], uint16(q.Type))
